@@ -4,10 +4,13 @@ C07 — every saved package is structurally sound and referentially closed (thin
 Theorems about `Model/ObjectStore.lean`: identifier allocation and creation bookkeeping as a state
 machine (`new_message_id`, `create_object_from_dict`, `add_component_metadata`), the tile loop of
 `recalculate_table_data` (after fixes/C07-no-empty-trailing-tile.patch) and the row-info builder
-`recalculate_row_info`.  Reference closure of the protobuf objects themselves is *not* a theorem:
-it is checked by harness/validator.py on every saved package (implementation level).
+`recalculate_row_info`; the object graph (every message abstracted to the list of identifiers it refers to) with
+reference closure as an invariant over creation / editing / save histories, and what `update_object_file_store`
+writes into the archive headers.  The histories of real sessions are recorded by harness/objgraph.py and replayed
+through the model (`ostore ghist`), whose final state is compared with the decoded saved package.
 -/
 import NumbersModel.Lemmas.ObjectStore
+import NumbersModel.Lemmas.ObjectGraph
 namespace NumbersModel.Props.C07
 open NumbersModel NumbersModel.Layout NumbersModel.ObjStore
 
@@ -76,6 +79,188 @@ example :
       "Index/Tables/Tile-2000001.iwa".toList, "Index/Tables/Tile-2000003.iwa".toList] ∧
     st.components.map (·.locator) = ["CalculationEngine".toList, "Tables/Tile-2000001".toList, "Tables/Tile-2000003".toList] ∧
     st.components.map (·.preferred) = ["CalculationEngine".toList, "Tables/Tile".toList, "Tables/Tile".toList] := by
+  decide +kernel
+
+/-! ### the object graph: reference closure over histories -/
+
+/-- **Closure is an invariant.**  Take any document as opened (`g0`: whatever its objects refer to) and any history of
+    creations (in an existing or a new archive file, succeeding or raising half-way), component / external-reference
+    entries, reference writes (`addRef`, `setRef`), reference removals, blob additions and `update_object_file_store`
+    runs.  If every reference the history writes targets an object that exists at that moment — or the object being
+    created itself — or an identifier exempted by `ex` (`targetsExistEx`: what each creator site must guarantee), then
+    in the state reached no loaded object has disappeared, and every reference held by a live message, by the message a
+    save writes, or listed in an archive header's `object_references` resolves to a stored object, is exempted by `ex`,
+    or was already unresolved at load *in that same object*. -/
+theorem references_closed_except (ex : Nat → Bool) (g0 : GStore) (ops : List GOp)
+    (h : targetsExistEx ex g0 ops = true) :
+    (∀ i ∈ g0.ids, i ∈ (runG g0 ops).ids) ∧
+    ∀ i r, (r ∈ (runG g0 ops).refsOf i ∨ r ∈ (runG g0 ops).writtenOf i ∨ r ∈ (runG g0 ops).hdrOf i) →
+      r ∈ (runG g0 ops).ids ∨ ex r = true ∨ UnresolvedAtLoad g0 i r := by
+  have hc := closed_run ops g0 (Closed.refl ex g0) h
+  refine ⟨hc.ids, fun i r hr => ?_⟩
+  rcases hr with hr | hr | hr
+  · exact hc.refs i r hr
+  · unfold GStore.writtenOf at hr
+    split at hr
+    · exact hc.refs i r hr
+    · exact hc.arch i r hr
+  · exact hc.hdr i r hr
+
+/-- …with no exemption: under `TargetsExist` every reference in every reachable state resolves, except those already
+    unresolved at load.  (Every state reachable by a history is the end of one: the statement is about all of them.) -/
+theorem references_closed (g0 : GStore) (ops : List GOp) (h : TargetsExist g0 ops) :
+    (∀ i ∈ g0.ids, i ∈ (runG g0 ops).ids) ∧
+    ∀ i r, (r ∈ (runG g0 ops).refsOf i ∨ r ∈ (runG g0 ops).writtenOf i ∨ r ∈ (runG g0 ops).hdrOf i) →
+      r ∈ (runG g0 ops).ids ∨ UnresolvedAtLoad g0 i r := by
+  obtain ⟨h1, h2⟩ := references_closed_except (fun _ => false) g0 ops h
+  refine ⟨h1, fun i r hr => ?_⟩
+  rcases h2 i r hr with a | a | a
+  · exact Or.inl a
+  · cases a
+  · exact Or.inr a
+
+/-- `TargetsExist` is inherited by every prefix of a history (so the closure statement holds at every intermediate state). -/
+theorem targetsExist_prefix (ex : Nat → Bool) (g0 : GStore) (pre post : List GOp)
+    (h : targetsExistEx ex g0 (pre ++ post) = true) :
+    targetsExistEx ex g0 pre = true ∧ targetsExistEx ex (runG g0 pre) post = true := by
+  induction pre generalizing g0 with
+  | nil => exact ⟨rfl, h⟩
+  | cons op r ih =>
+    simp only [List.cons_append, targetsExistEx, Bool.and_eq_true] at h ⊢
+    obtain ⟨a, b⟩ := ih (stepG g0 op) h.2
+    exact ⟨⟨h.1, a⟩, by simpa [runG] using b⟩
+
+/-- **What a save writes into the headers.**  When every stored object is filed (`wellFiled`: its archive is in the file
+    `_object_to_filename_map` names), `update_object_file_store` raises nothing, changes neither the store nor the live
+    messages, and for every stored object the written message holds exactly the live references and the header's
+    `object_references` are exactly those references — as the code computes them: **when the message has at least
+    one**; a message without references leaves the header list as it was (`if len(references) > 0`). -/
+theorem header_refs_exact (g : GStore) (hw : wellFiled g = true) :
+    (updateFileStore g).2 = .ok () ∧ (updateFileStore g).1.toStore = g.toStore ∧ (updateFileStore g).1.refs = g.refs ∧
+    ∀ i ∈ g.ids, (updateFileStore g).1.writtenOf i = g.refsOf i ∧
+      (g.refsOf i ≠ [] → (updateFileStore g).1.hdrOf i = g.refsOf i) ∧
+      (g.refsOf i = [] → (updateFileStore g).1.hdrOf i = g.hdrOf i) := by
+  obtain ⟨h1, h2, h3, _, h5, _⟩ := copyAll_spec g g.ids ((wellFiled_iff g).mp hw)
+  exact ⟨h1, h2, h3, h5⟩
+
+/-- an object made by `create_object_from_dict` starts with an empty header list, so its first save is exact without the
+    proviso: header = references of the message -/
+theorem created_header_exact (g : GStore) (f : List Char) (a : Bool) (rs : List Nat) (id : Nat)
+    (h : (createG g f a rs).2 = .ok id) : (createG g f a rs).1.hdrOf id = [] ∧ (createG g f a rs).1.refsOf id = rs := by
+  obtain ⟨_, _, hc⟩ := createG_cases g f a rs
+  rcases hc with ⟨e, he, _⟩ | ⟨hid, _, hr, _, hh⟩
+  · rw [he] at h; cases h
+  · rw [hid] at h
+    simp only [Except.ok.injEq] at h
+    subst h
+    simp [GStore.hdrOf, GStore.refsOf, hr, hh, getL_dictSet]
+
+/-- **New files stay listed, over histories.**  At any point of any history (the state `g` is arbitrary), when a creator makes a new
+    archive file (`create_object_from_dict("Index/<loc>", …)`, no file name containing the pattern) and lists it
+    (`add_component_metadata(id, parent, "<loc>")`), the metadata has a component for the object whose locator names exactly the
+    file that now holds it — and whatever operations follow (`post`), a component with that identifier and that locator is still
+    listed: no operation of the library removes or renames a component entry. -/
+theorem new_files_listed_history (g : GStore) (loc parent : List Char) (rs : List Nat) (id : Nat) (post : List GOp)
+    (hnew : g.files.filter (fun f => isInfix ("Index/".toList ++ loc) f.1) = [])
+    (hc : (createG g ("Index/".toList ++ loc) false rs).2 = .ok id)
+    (hm : (addComponentMetadata (createG g ("Index/".toList ++ loc) false rs).1.toStore id parent loc).2 = .ok ()) :
+    ∃ c ∈ (runG g [.create ("Index/".toList ++ loc) false rs, .addMeta id parent loc]).components,
+      c.identifier = id ∧
+      dictGet? (runG g [.create ("Index/".toList ++ loc) false rs, .addMeta id parent loc]).files
+        ("Index/".toList ++ c.locator ++ ".iwa".toList) = some (some [id]) ∧
+      dictGet? (runG g [.create ("Index/".toList ++ loc) false rs, .addMeta id parent loc]).fileOf id =
+        some ("Index/".toList ++ c.locator ++ ".iwa".toList) ∧
+      ∃ c' ∈ (runG g ([.create ("Index/".toList ++ loc) false rs, .addMeta id parent loc] ++ post)).components,
+        c'.identifier = id ∧ c'.locator = c.locator := by
+  obtain ⟨e1, e2⟩ := createG_toStore g ("Index/".toList ++ loc) false rs
+  have hlisted : createListed g.toStore loc parent =
+      ((addComponentMetadata (createG g ("Index/".toList ++ loc) false rs).1.toStore id parent loc).1, .ok id) := by
+    unfold createListed
+    rw [e2] at hc
+    rw [e1] at hm ⊢
+    have h1 : createObject g.toStore ("Index/".toList ++ loc) false =
+        ((createObject g.toStore ("Index/".toList ++ loc) false).1, .ok id) := Prod.ext rfl hc
+    rw [h1]
+    simp only
+    have h2 : addComponentMetadata (createObject g.toStore ("Index/".toList ++ loc) false).1 id parent loc =
+        ((addComponentMetadata (createObject g.toStore ("Index/".toList ++ loc) false).1 id parent loc).1, .ok ()) := Prod.ext rfl hm
+    rw [h2]
+  obtain ⟨c, hcm, hid, hf, hfo⟩ := (createListed_new_file g.toStore _ loc parent id hnew hlisted).2
+  have hrun : (runG g [.create ("Index/".toList ++ loc) false rs, .addMeta id parent loc]).toStore =
+      (addComponentMetadata (createG g ("Index/".toList ++ loc) false rs).1.toStore id parent loc).1 := rfl
+  refine ⟨c, ?_, hid, ?_, ?_, ?_⟩
+  · show c ∈ (runG g _).toStore.components; rw [hrun]; exact hcm
+  · show dictGet? (runG g _).toStore.files _ = _; rw [hrun]; exact hf
+  · show dictGet? (runG g _).toStore.fileOf _ = _; rw [hrun]; exact hfo
+  · have hc2 : c ∈ (runG g [.create ("Index/".toList ++ loc) false rs, .addMeta id parent loc]).components := by
+      show c ∈ (runG g _).toStore.components; rw [hrun]; exact hcm
+    obtain ⟨c', h1, h2, h3, _⟩ := components_persist _ post c hc2
+    refine ⟨c', ?_, h2.trans hid, h3⟩
+    simpa [runG, List.foldl_append] using h1
+
+/-! non-vacuity: a history that satisfies `TargetsExist` (a tile is created, listed, referenced from the table, the
+    header lists are recomputed) — and the state it reaches -/
+example :
+    let g0 : GStore := {
+      maxId := 2000000, lastObjId := 1999999, ids := [1, 2, 7, 1999999],
+      fileOf := [(1, "Index/Document.iwa".toList), (2, "Index/Metadata.iwa".toList), (7, "Index/Document.iwa".toList),
+                 (1999999, "Index/CalculationEngine.iwa".toList)],
+      files := [("Index/Document.iwa".toList, some [1, 7]), ("Index/Metadata.iwa".toList, some [2]),
+                ("Index/CalculationEngine.iwa".toList, some [1999999])],
+      components := [⟨1999999, "CalculationEngine".toList, "CalculationEngine".toList, []⟩],
+      refs := [(1, [7, 55]), (7, [1999999])], shared := [1, 2, 7, 1999999], hdr := [(1, [7, 55]), (7, [1999999])] }
+    let ops := [GOp.create "Index/Tables/Tile-{}".toList false [], .addMeta 2000001 "CalculationEngine".toList "Tables/Tile-{}".toList,
+      .clearRef 7 1999999, .addRef 7 2000001, .create "CalculationEngine".toList false [7, 2000002], .update]
+    let g := runG g0 ops
+    TargetsExist g0 ops ∧ wellFiled g0 = true ∧ wellFiled g = true ∧ g.ids = [1, 2, 7, 1999999, 2000001, 2000002] ∧
+    g.refs = [(1, [7, 55]), (7, [2000001]), (2000001, []), (2000002, [7, 2000002])] ∧
+    g.hdr = [(1, [7, 55]), (7, [2000001]), (2000001, []), (2000002, [7, 2000002])] ∧
+    g.writtenOf 2000002 = [7, 2000002] ∧ 55 ∉ g.ids ∧ 55 ∉ g0.ids ∧
+    g.components.map (fun c => (c.identifier, String.ofList c.locator)) = [(1999999, "CalculationEngine"), (2000001, "Tables/Tile-2000001")] := by
+  decide +kernel
+
+/-! **known finding `null-reference-identifier-zero`**: `add_table` creates the table model with the references of the
+    template table, then overwrites `category_owner` with identifier 0 (`table_model.category_owner.identifier = 0`).
+    The recorded history of a real `add_table` call starts  C …; X model old; A model 0 — the side condition fails exactly
+    at that `addRef`: `TargetsExist` is false, it holds as soon as identifier 0 (and only 0) is exempted, and the state
+    reached carries the unresolved reference, also in the header list after the save. -/
+example :
+    let g0 : GStore := {
+      maxId := 1000000, lastObjId := 999999, ids := [1, 2, 904923, 904616],
+      fileOf := [(1, "Index/Document.iwa".toList), (2, "Index/Metadata.iwa".toList), (904923, "Index/CalculationEngine.iwa".toList),
+                 (904616, "Index/CalculationEngine.iwa".toList)],
+      files := [("Index/Document.iwa".toList, some [1]), ("Index/Metadata.iwa".toList, some [2]),
+                ("Index/CalculationEngine.iwa".toList, some [904923, 904616])],
+      shared := [1, 2, 904923, 904616] }
+    let addTable := [GOp.create "CalculationEngine".toList false [904616, 904923], .clearRef 1000001 904923, .addRef 1000001 0,
+      .create "CalculationEngine".toList false [], .clearRef 1000001 904616, .addRef 1000001 1000002, .update]
+    TargetsExist g0 addTable = False ∧
+    targetsExistEx (fun _ => false) g0 (addTable.take 2) = true ∧ targetsExistEx (fun _ => false) g0 (addTable.take 3) = false ∧
+    targetsExistEx (· == 0) g0 addTable = true ∧
+    (runG g0 addTable).refsOf 1000001 = [0, 1000002] ∧ (runG g0 addTable).hdrOf 1000001 = [0, 1000002] ∧
+    0 ∉ (runG g0 addTable).ids := by
+  simp only [TargetsExist, eq_iff_iff, iff_false, Bool.not_eq_true]
+  decide +kernel
+
+/-! the proviso of `header_refs_exact` is real in the model: an object that loses its last reference keeps the header list
+    of the previous save (`copy_object_to_iwa_file` only rewrites the list `if len(references) > 0`) -/
+example :
+    let g0 : GStore := {
+      maxId := 1000000, lastObjId := 9, ids := [2, 5, 6], fileOf := [(2, ['m']), (5, ['d']), (6, ['d'])],
+      files := [(['m'], some [2]), (['d'], some [5, 6])], refs := [(5, [6])], shared := [2, 5, 6], hdr := [(5, [6])] }
+    let g := runG g0 [.clearRef 5 6, .update]
+    g.refsOf 5 = [] ∧ g.hdrOf 5 = [6] := by
+  decide +kernel
+
+/-! `wellFiled` is not an invariant of arbitrary histories: a new archive file is stored under `pattern.format(id) + ".iwa"`
+    whatever the file store holds under that name (the test `iwa_file in k` is made with the *unformatted* pattern) — a
+    member that happens to carry the name is replaced and its objects are no longer filed.  No fixture or recorded
+    session does this (the driver reports `wellFiled` before and after every recorded history). -/
+example :
+    let g0 : GStore := {
+      maxId := 1000000, lastObjId := 9, ids := [2, 5], fileOf := [(2, ['m']), (5, "T-1000001.iwa".toList)],
+      files := [(['m'], some [2]), ("T-1000001.iwa".toList, some [5])], shared := [2, 5] }
+    wellFiled g0 = true ∧ wellFiled (runG g0 [.create "T-{}".toList false []]) = false := by
   decide +kernel
 
 /-! ### tiles -/
